@@ -72,6 +72,24 @@ type Rec struct {
 	Tags  []string
 }
 """),
+    ("types-in-one-parenthesised-declaration-with-multi-key-tags", """
+type (
+	Rec struct {
+		ID   int32   `json:"id" parquet:"id"`
+		Loc  Point   `json:"loc" parquet:"loc"`
+		Home *Addr   `json:"home,omitempty" parquet:"home"`
+		Tags []string `parquet:"tags" json:"tags"`
+		Skip string  `json:"-" parquet:"-"`
+	}
+	Point struct {
+		X, Y float64
+	}
+	Addr struct {
+		City string  `json:"city" parquet:"city"`
+		Zip  *string `json:"zip" parquet:"zip"`
+	}
+)
+"""),
     ("untagged-and-mixed-case-tags", """
 type Inner struct {
 	CamelCase string
@@ -211,7 +229,7 @@ def register(PROPS):
         stages=[dict(test="TestC05", kind="enum", quick=1, thorough=1, timeout_thorough=5400)],
         replay="TestReplayC05",
         rule="programs: quick = every column context with <= 2 group ancestors realised as a minimal struct with a required earlier sibling where the context says 'later child' (258) + every 8th "
-             "shape of E1 + 47 composites + 4 hand-written programs whose feature the shape notation does not carry (name-concatenation collision, one struct type used for three groups, several names in one field declaration, untagged / mixed-case tags); thorough = E1 (all 1560 shapes with <= 2 children per struct and group depth <= 1) + E2 (3615 context structs: each ancestor r|o|p x first/later child x "
+             "shape of E1 + 47 composites + 5 hand-written programs whose feature the shape notation does not carry (name-concatenation collision, one struct type used for three groups, several names in one field declaration, one parenthesised type declaration with multi-key tags, untagged / mixed-case tags); thorough = E1 (all 1560 shapes with <= 2 children per struct and group depth <= 1) + E2 (3615 context structs: each ancestor r|o|p x first/later child x "
              "earlier sibling in {required, optional, repeated leaf, optional group}) + 1296 context structs with three group ancestors (required earlier sibling) + composites; leaf types rotate through the 8 primitives. Per program: parquetgen twice (byte-identical output), "
              "go build, then for up to 120 structurally distinct records (all of them when fewer; label value-space-complete) three workloads (one batch/large pages/uncompressed; two batches/page size 1/snappy; "
              "two batches/page size 3/gzip): read back == written, file valid under the C02 walker, column data == reference striping and reassembles. evaluations = records judged; every judged "
@@ -353,7 +371,13 @@ def c14_pairs(D, tier, seed):
         topdown = rnd.random() < 0.4
         if topdown:
             desc.append("types-declared-top-down")
-        pairs.append(dict(base=base, dec=dec, desc=desc, imports=tuple(sorted(imports)), aux=aux, topdown=topdown))
+        multikey = rnd.random() < 0.4
+        grouped = rnd.random() < 0.3
+        if multikey:
+            desc.append("types-declared-with-json-key-before-parquet-key")
+        if grouped:
+            desc.append("types-declared-in-one-parenthesised-group")
+        pairs.append(dict(base=base, dec=dec, desc=desc, imports=tuple(sorted(imports)), aux=aux, topdown=topdown, multikey=multikey, grouped=grouped))
     # embedding chains (an embedded struct that itself embeds a struct), declared bottom-up and top-down
     for i, td in enumerate((False, True, True)):
         b0 = bases[(i * 101 + 7) % len(bases)]
@@ -402,7 +426,7 @@ def c14_prepare(D, pid, cfg, W, tier, replay):
         for i, pr in enumerate(pairs):
             bn, dn = "b%04d" % i, "d%04d" % i
             bsrc = lab.emit(bn, pr["base"])
-            dsrc = lab.emit(dn, pr["dec"], imports=pr["imports"], extra=pr["aux"], topdown=pr.get("topdown", False))
+            dsrc = lab.emit(dn, pr["dec"], imports=pr["imports"], extra=pr["aux"], topdown=pr.get("topdown", False), multikey=pr.get("multikey", False), grouped=pr.get("grouped", False))
             W.c14.append(dict(i=i, bn=bn, dn=dn, bsrc=bsrc, dsrc=dsrc, desc=pr["desc"], shape=lab.typed_notation(pr["base"]), dshape=lab.notation(pr["dec"])))
     import concurrent.futures as cf
     with cf.ThreadPoolExecutor(max_workers=os.cpu_count() or 4) as ex:
